@@ -17,12 +17,16 @@ ASSUMPTIONS = ['when no rule applies the property only requires the rule-match e
 STACKS = ['IPv6-UDP-CoAP', 'IPv4-UDP-CoAP', 'UDP', 'CoAP', 'SCTP']
 
 
+from microschc.rfc8724 import RuleNature, RuleDescriptor
+
+
 def one(b, rnd, stack, pkt, pd, rules, d, strat, klass, cm=None):
     if cm is None:
         cm = ContextManager(Context(id='c', description='', interface_id='i', parser_id=stack, ruleset=rules))
     bits = b2s(pkt)
     out = obs_bits(with_timeout(lambda: cm.compress(Buffer(pkt, len(pkt) * 8), direction=d, match_strategy=strat)))
-    nrs = [n_rule(r) for r in rules]
+    # rules of fragmentation nature share the id space; the compressor must never select them: model and reference do not see them
+    nrs = [n_rule(r) for r in rules if r.nature is not RuleNature.FRAGMENTATION]
     npd = dict(n_pdesc(pd), dir=DIRC[d])
     cands = [nr for nr in nrs if ref_rule_applies(npd, nr)]
     outs = [ref_compress(npd, nr, DIRC[d]) for nr in cands]
@@ -56,12 +60,15 @@ def run(rep, tier, seed):
             d = rnd.choice([DI.UP, DI.DOWN])
             pd.direction = d
             rules = gen_ruleset(rnd, pd, direction=rnd.choice([DI.BIDIRECTIONAL, DI.BIDIRECTIONAL, d]))
+            if len(rules) > 1 and rnd.random() < 0.3:
+                j = rnd.randrange(len(rules) - 1)
+                rules[j] = RuleDescriptor(id=rules[j].id, nature=RuleNature.FRAGMENTATION)
+                rep.hist['ruleset-with-fragmentation-rule'] = rep.hist.get('ruleset-with-fragmentation-rule', 0) + 1
             for strat in (MatchStrategy.FIRST, MatchStrategy.BEST):
                 one(b, rnd, stack, pkt, pd, rules, d, strat, 'select:%s:%s' % (stack, strat.value))
     # one long-lived manager answering both directions and both strategies in turn, rules with Up / Dw alternatives
     from p_c18 import dir_rule
     from schc_util import prefix_free_ids
-    from microschc.rfc8724 import RuleDescriptor
     from gens import no_compression_rule
     for i in range(n // 3):
         stack, pkt, st, pd = gen_parsed(rnd, STACKS[i % len(STACKS)])
